@@ -248,6 +248,11 @@ def assert_equal(res, name, lhs, rhs, assumptions, tol=1e-8, timeout_ms=60000, l
 
 
 def model_floats(model, vs):
+    if model is None:
+        # assert_equal reports `sat` without a model when a difference is a non-zero *constant*: every assignment exposes
+        # it, so the replay gets fixed generic values in (0.1, 0.9) (inside all the boxes used by the checks)
+        rng = np.random.default_rng(20261004)
+        return 0.1 + 0.8 * rng.random(len(vs))
     return np.array([model_value(model, v) for v in vs], dtype=float)
 
 
